@@ -48,14 +48,14 @@ ASSUMPTIONS = [
 # ---------------------------------------------------------------------------------------------------
 #  strings
 # ---------------------------------------------------------------------------------------------------
-_plain_re = re.compile(r'^[\x20-\x24\x26-\x7e]*$')
+_plain_re = re.compile(r'[\x20-\x24\x26-\x7e]*')
 
 
 def esc(s):
     """mirror of xv::esc (drivers/xvdrive.cpp): python str of UTF-16 code units -> escaped text of the log"""
     if s is None:
         return '~'
-    if _plain_re.match(s):
+    if _plain_re.fullmatch(s):
         return s
     out = []
     i = 0
@@ -125,7 +125,7 @@ def all_ws(s):
 # ---------------------------------------------------------------------------------------------------
 class Node:
     __slots__ = ('t', 'doc', 'parent', 'kids', 'name', 'ns', 'prefix', 'local', 'data', 'attrs', 'owner', 'h', 'ro',
-                 'spec', 'isid', 'alive', 'ud', 'l2', 'serial')
+                 'spec', 'isid', 'alive', 'ud', 'l2', 'serial', 'origin')
 
     def __init__(self, t, doc, name=None, data=None):
         self.t = t
@@ -145,6 +145,7 @@ class Node:
         self.ud = None          # key -> (value, has_handler)
         self.l2 = False         # created by a namespace-aware method
         self.serial = 0
+        self.origin = 'created' # created | cloned | imported | split | implicit | renamed
 
     def docnode(self):
         return self if self.t == DOC else self.doc
@@ -267,7 +268,7 @@ class Undecided(Exception):
 
 # quirks: W3C-explicit behaviour that Xerces is known (from this work) to deviate from; each is a narrow violation key
 ALL_QUIRKS = (
-    'normalize-keeps-empty-text', 'normalize-skips-attr-children', 'move-docelement-raises-hierarchy',
+    'setIdAttributeNode-matches-by-name', 'setAttributeNS-prefixed-replaces-node', 'normalize-keeps-empty-text', 'normalize-skips-attr-children', 'move-docelement-raises-hierarchy',
     'setAttributeNodeNS-own-attr-raises-inuse', 'setTextContent-empty-creates-text', 'setAttributeNS-keeps-prefix',
     'rename-no-name-check', 'fragment-partial-insert', 'xmlns-element-accepted', 'xmlns-uri-other-name-accepted',
 )
@@ -412,7 +413,7 @@ class Model:
             if x.ud:
                 for k, (val, hd) in sorted(x.ud.items()):
                     if hd:
-                        exp.ud.append((3, k, val, self.ref(x)))
+                        exp.ud.append((3, k, val, 'null'))
             if x.h is not None:
                 exp.kills.append(x.h)
             self.kill(x)
@@ -433,10 +434,9 @@ class Model:
             raise Undecided('empty namespace')
         ok = self._check_name(qname)
         if not ok:
+            # not an XML Name: INVALID_CHARACTER_ERR; such a string is not a well-formed qualified name either
             errs.add(INVALID_CHAR)
-            # Xerces reports malformed qualified names of invalid characters either way
-            if qname is not None and qname != '' and (':' in qname):
-                errs.add(NAMESPACE_ERR)
+            errs.add(NAMESPACE_ERR)
             return errs
         parts = qname.split(':')
         if len(parts) > 2 or (len(parts) == 2 and (not is_ncname(parts[0]) or not is_ncname(parts[1]))):
@@ -485,7 +485,7 @@ class Model:
         cand = list(new.kids) if new.t == FRAG else [new]
         for c in cand:
             if c.t not in allowed:
-                if p.t == DOC and c.t == TEXT and all_ws(c.data):
+                if p.t == DOC and c.t == TEXT and c.data != '' and all_ws(c.data):
                     continue        # repository extension (ASSUMPTIONS)
                 errs.add(HIERARCHY)
         if new.t in (ATTR, ENTITY, NOTATION):
@@ -654,6 +654,10 @@ class Model:
         e.cls = self._ins_class(p, new, ref, errs)
         if errs:
             e.codes = errs
+            if p.t == DOC and new.t in (ELEMENT, DOCTYPE) and new.parent is p:
+                e.quirks.append('move-docelement-raises-hierarchy')
+                if 'move-docelement-raises-hierarchy' in self.quirk:
+                    e.codes = errs | {HIERARCHY}
             return e
         if p.t == DOC and new.t == ELEMENT and new.parent is p:
             e.cls = 'move-docelement'
@@ -701,8 +705,16 @@ class Model:
         e.cls = self._ins_class(p, new, None, errs) if errs else 'legal'
         if NOT_FOUND in errs and e.cls == 'legal':
             e.cls = 'not-a-child'
+        movede = p.t == DOC and new.t in (ELEMENT, DOCTYPE) and new.parent is p
+        if movede:
+            e.quirks.append('move-docelement-raises-hierarchy')
+            if not errs:
+                e.cls = 'move-docelement'
         if errs:
-            e.codes = errs
+            e.codes = errs | ({HIERARCHY} if movede and 'move-docelement-raises-hierarchy' in self.quirk else set())
+            return e
+        if movede and 'move-docelement-raises-hierarchy' in self.quirk:
+            e.codes = {HIERARCHY}
             return e
         if new.t == FRAG and old in new.kids:
             raise Undecided('old child inside the fragment')
@@ -721,6 +733,7 @@ class Model:
         """copy of n owned by doc (default: same document)"""
         d = doc if doc is not None else n.docnode()
         c = self.mk(n.t, d, n.name, n.data)
+        c.origin = 'imported' if importing else 'cloned'
         c.ns, c.prefix, c.local, c.l2 = n.ns, n.prefix, n.local, n.l2
         c.ro = n.t == ENTREF
         if n.ud:
@@ -755,6 +768,8 @@ class Model:
         c = self._clone(n, deep, e)
         e.res = self.result(c, want)
         e.cls = TYPE_NAMES[n.t] + ('-deep' if deep else '-shallow')
+        if n.t in (TEXT, CDATA, COMMENT, PI, ENTREF) and n.parent is not None and n.parent.kids[0] is n:
+            e.cls = 'leaf-firstchild-source'
         return e
 
     def op_import(self, want, doc, n, deep):
@@ -808,22 +823,24 @@ class Model:
             errs.add(NOT_SUPPORTED)
         if n.docnode() is not doc:
             errs.add(WRONG_DOC)
-        if ns is None:
+        if n.t == DOC:
+            errs.add(WRONG_DOC)      # the document node has no owner document: Xerces answers WRONG_DOCUMENT_ERR, DOM L3 NOT_SUPPORTED_ERR
+        if ns is None and not n.l2:
             ok = self._check_name(qname)
             if not ok:
                 errs.add(INVALID_CHAR)
-                if n.t in (ELEMENT, ATTR) and n.docnode() is doc and not n.l2:
+                if n.t in (ELEMENT, ATTR) and n.docnode() is doc:
                     e.quirks.append('rename-no-name-check')
-            elif n.l2 or True:
-                # a null namespace with a prefixed name is a namespace error for namespace-aware nodes
-                if n.l2:
-                    errs |= self._qname_errors(None, qname, n.t == ATTR)
         else:
             errs |= self._qname_errors(ns, qname, n.t == ATTR)
             self._ns_quirks(e, ns, qname, n.t == ATTR)
         if errs and not ('rename-no-name-check' in self.quirk and errs == {INVALID_CHAR} and 'rename-no-name-check' in e.quirks):
             e.codes = errs
             e.cls = 'illegal'
+            if n.t in (ELEMENT, ATTR) and n.docnode() is doc and n.l2 and qname:
+                # DOMElementNSImpl/DOMAttrNSImpl::setName store the new name before validating it (and an owned attribute
+                # has already been taken out of its element): the node is modified although the call fails
+                e.cls = 'illegal-ns-aware-node'
             return e
         if n.ro or (n.t == ATTR and n.owner is not None and n.owner.ro) or (n.parent is not None and n.parent.ro):
             raise Undecided('rename of read-only node')
@@ -866,6 +883,7 @@ class Model:
         # Level-1 node renamed into a namespace: a new node takes over
         e.cls = 'new-node'
         new = self.mk(n.t, n.doc)
+        new.origin = 'renamed'
         self._set_qname(new, ns, qname)
         new.ud, n.ud = n.ud, None
         if n.t == ELEMENT:
@@ -987,6 +1005,7 @@ class Model:
             self._release_subtree(k, e)
         if val is not None:
             t = self.mk(TEXT, a.doc, None, val)
+            t.origin = 'implicit'
             a.kids.append(t); t.parent = a
         a.spec = True
 
@@ -1004,6 +1023,7 @@ class Model:
         e.cls = 'existing' if a else 'new'
         if a is None:
             a = self.mk(ATTR, el.doc, name)
+            a.origin = 'implicit'
             self._set_attr_node(el, a, False, e)
         if a.ro:
             raise Undecided('read-only attribute')
@@ -1055,20 +1075,39 @@ class Model:
         e.cls = 'existing' if a else 'new'
         if a is None:
             a = self.mk(ATTR, el.doc)
+            a.origin = 'implicit'
             self._set_qname(a, ns, qname)
             self._set_attr_node(el, a, True, e)
         else:
-            if a.l2 and a.prefix != prefix:
-                e.quirks.append('setAttributeNS-keeps-prefix')
-                e.cls = 'existing-other-prefix'
-                if 'setAttributeNS-keeps-prefix' not in self.quirk:
+            if not a.l2:
+                raise Undecided('namespace-aware update of a Level-1 attribute')
+            if a.isid:
+                raise Undecided('namespace-aware update of an ID attribute')
+            if prefix is not None:
+                # W3C: the existing Attr node stays, its prefix and value change.  Xerces looks the attribute up under
+                # ":local" (DOMElementImpl::setAttributeNS, qualifiedName+index), misses it, and puts a new node in its place.
+                e.cls = 'existing-prefixed-qname'
+                e.quirks.append('setAttributeNS-prefixed-replaces-node')
+                if 'setAttributeNS-prefixed-replaces-node' in self.quirk:
+                    b = self.mk(ATTR, el.doc)
+                    b.origin = 'implicit'
+                    self._set_qname(b, ns, qname)
+                    el.attrs.remove(a); a.owner = None
+                    clash = [x for x in el.attrs if x.name == qname]
+                    if clash:
+                        raise Undecided('nodeName duplicate in attribute map')
+                    el.attrs.append(b); b.owner = el
+                    a = b
+            if a.prefix != prefix and a.owner is el and not ('setAttributeNS-prefixed-replaces-node' in self.quirk and prefix is not None):
+                if prefix is None:
+                    e.cls = 'existing-other-prefix'
+                    e.quirks.append('setAttributeNS-keeps-prefix')
+                if 'setAttributeNS-keeps-prefix' not in self.quirk or prefix is not None:
                     clash = [x for x in el.attrs if x is not a and x.name == qname]
                     if clash:
                         raise Undecided('nodeName duplicate in attribute map')
                     a.prefix = prefix
                     a.name = qname
-            elif not a.l2:
-                raise Undecided('namespace-aware update of a Level-1 attribute')
         self._attr_set_value(a, val, e)
         return e
 
@@ -1108,6 +1147,9 @@ class Model:
 
     def _op_setAttrNode(self, want, el, a, nsaware):
         e = Exp()
+        if nsaware and not a.l2:
+            # DOM L3 1.3.3: mixing Level-1 nodes with namespace-aware methods is undefined (Xerces matches null == null local names)
+            raise Undecided('Level-1 attribute node given to setAttributeNodeNS')
         errs = set()
         if el.ro:
             errs.add(NO_MOD)
@@ -1120,7 +1162,7 @@ class Model:
             e.cls = 'in-use' if INUSE in errs else ('foreign-document' if WRONG_DOC in errs else 'read-only')
             return e
         if a.owner is el:
-            e.cls = 'own-attribute'
+            e.cls = 'own-attribute-ns' if nsaware else 'own-attribute'
             if nsaware:
                 e.quirks.append('setAttributeNodeNS-own-attr-raises-inuse')
                 if 'setAttributeNodeNS-own-attr-raises-inuse' in self.quirk:
@@ -1177,7 +1219,19 @@ class Model:
         return self._set_id(Exp(), el, self._attr_by_ns(el, ns, local), flag)
 
     def op_setIdNode(self, want, el, a, flag):
-        return self._set_id(Exp(), el, a if a.owner is el else None, flag)
+        e = Exp()
+        if a.owner is not el and not el.ro:
+            # W3C: NOT_FOUND_ERR.  DOMElementImpl::setIdAttributeNode looks the attribute up by NAME and flags whatever it finds.
+            b = self._attr_by_name(el, a.name) if a.local is None else self._attr_by_ns(el, a.ns, a.local)
+            if b is not None:
+                e.quirks.append('setIdAttributeNode-matches-by-name')
+                e.cls = 'foreign-attr-same-name'
+                if 'setIdAttributeNode-matches-by-name' in self.quirk:
+                    b.isid = bool(flag)
+                    return e
+                e.codes = {NOT_FOUND}
+                return e
+        return self._set_id(e, el, a if a.owner is el else None, flag)
 
     # ---- character data
     def _cd_guard(self, n, e):
@@ -1283,6 +1337,7 @@ class Model:
             e.codes = errs; e.cls = 'offset-out-of-range' if INDEX_SIZE in errs else 'read-only'
             return e
         new = self.mk(n.t, n.doc, None, n.data[off:])
+        new.origin = 'split'
         p = n.parent
         e.cls = ('attached' if p is not None else 'detached') + ('-at-end' if off == len(n.data) else ('-at-start' if off == 0 else ''))
         if p is not None:
@@ -1310,11 +1365,19 @@ class Model:
             raise Undecided('entity reference next to text run')
         return sib[a:b + 1]
 
+    def _run_after_container_text(self, run):
+        """the node before the run is an element / entity reference whose last child is not an element, comment or PI:
+        DOMTextImpl::getWholeText / replaceWholeText walk backwards INTO it (observed defect, notes/C13.md)"""
+        p = run[0].prev()
+        return p is not None and p.t in (ELEMENT, ENTREF) and bool(p.kids) and p.kids[-1].t not in (ELEMENT, COMMENT, PI)
+
     def op_wholeText(self, want, n):
         e = Exp()
         if not self._under_docelement(n):
             raise Undecided('wholeText outside the document element')
-        e.res = 's:' + esc(''.join(x.data for x in self._logical_text_run(n)))
+        run = self._logical_text_run(n)
+        e.cls = 'after-element-ending-in-text' if self._run_after_container_text(run) else 'plain'
+        e.res = 's:' + esc(''.join(x.data for x in run))
         return e
 
     def _under_docelement(self, n):
@@ -1334,6 +1397,8 @@ class Model:
             raise Undecided('read-only text run')
         s = s or ''
         e.cls = 'empty' if s == '' else ('single' if len(run) == 1 else 'run')
+        if self._run_after_container_text(run):
+            e.cls = 'after-element-ending-in-text'
         keep = None
         if s != '':
             keep = run[0]
@@ -1551,6 +1616,40 @@ class Model:
     def op_setPrefix(self, want, n, prefix):
         raise Undecided('setPrefix not modelled')
 
+    def tail_class(self, op):
+        """operand class of a resolved op when it belongs to TAIL_ONLY (decided WITHOUT touching the state), else None"""
+        name, want, a = op
+        try:
+            if name in ('app', 'ins', 'rep') and a[1] is a[0]:
+                return 'insert-into-self'
+            if name == 'substringData' and a[2] >= 4096 and len(a[0].data) < 4095 and a[1] <= len(a[0].data):
+                return 'count-huge'
+            if name == 'clone':
+                n = a[0]
+                if n.t in (TEXT, CDATA, COMMENT, PI, ENTREF) and n.parent is not None and n.parent.kids[0] is n:
+                    return 'leaf-firstchild-source'
+            if name == 'rename':
+                doc, n, ns, qname = a
+                if n.t in (ELEMENT, ATTR) and n.docnode() is doc and n.l2 and qname:
+                    try:
+                        if self._qname_errors(ns, qname, n.t == ATTR):
+                            return 'illegal-ns-aware-node'
+                    except Undecided:
+                        return None
+            if name == 'setAttrNode' and a[1].t == ATTR and a[1].owner is a[0] and not a[0].ro:
+                return 'own-attribute'
+            if name in ('wholeText', 'replaceWholeText'):
+                n = a[0]
+                if n.parent is not None and self._under_docelement(n):
+                    try:
+                        if self._run_after_container_text(self._logical_text_run(n)):
+                            return 'after-element-ending-in-text'
+                    except Undecided:
+                        return None
+        except (AttributeError, IndexError, TypeError):
+            return None
+        return None
+
     # ------------------------------------------------------------------ dispatcher
     def apply(self, op):
         """op = (name, want, args) with args already resolved against this model (Node objects, str, int)"""
@@ -1582,10 +1681,11 @@ MUTATING = {'ins', 'app', 'rem', 'rep', 'adopt', 'rename', 'normalize', 'setAttr
 
 class ScriptOp:
     """an operation in handle form: name, want (int or None), args (ints for handles, str/None, ints for numbers)"""
-    __slots__ = ('name', 'want', 'args')
+    __slots__ = ('name', 'want', 'args', 'kills')
 
-    def __init__(self, name, want, args):
+    def __init__(self, name, want, args, kills=None):
         self.name, self.want, self.args = name, want, list(args)
+        self.kills = list(kills or [])     # handles the library releases when the operation succeeds ("!n<k>" tokens)
 
     def render(self):
         if self.name == 'kill':
@@ -1606,6 +1706,8 @@ class ScriptOp:
                 toks.append('v%d' % a)
             else:
                 toks.append(str(a))
+        for h in self.kills:
+            toks.append('!n%d' % h)
         return ' '.join(toks)
 
     def resolve(self, m):
@@ -1621,11 +1723,11 @@ class ScriptOp:
         return (self.name, self.want, out)
 
     def to_json(self):
-        return [self.name, self.want, self.args]
+        return [self.name, self.want, self.args, self.kills]
 
     @staticmethod
     def from_json(j):
-        return ScriptOp(j[0], j[1], j[2])
+        return ScriptOp(j[0], j[1], j[2], j[3] if len(j) > 3 else None)
 
 
 # ---------------------------------------------------------------------------------------------------
@@ -1640,12 +1742,12 @@ NS_BAD = [(None, 'p:a'), ('urn:u1', 'xml:a'), ('urn:u1', 'a:b:c'), ('urn:u1', ':
           ('urn:u1', 'a b'), ('urn:u1', '1a'), ('urn:u1', ''), ('urn:u1', 'p:a<'), ('urn:u1', None)]
 NS_BAD_ATTR = [('urn:u1', 'xmlns'), ('urn:u1', 'xmlns:p'), (None, 'xmlns')]
 NS_SUSPECT = [('urn:u1', 'xmlns:a'), (XMLNS_NS, 'a'), (XMLNS_NS, 'p:a')]     # W3C: NAMESPACE_ERR; quirk classes
-DATA = ['', 'a', 'hello', ' ', '  \n', 'x<y&z', 'é中', 'a😀b', 'tail', '0123456789', ']]>', 'A' * 40, '\t', 'q\ud83dz']
+DATA = ['', 'a', 'hello', ' ', '  \n', 'x<y&z', 'é中', 'a\ud83d\ude00b', 'tail', '0123456789', ']]>', 'A' * 40, '\t', 'q\ud83dz']
 UD_KEYS = ['k1', 'k2', 'é']
 
 # classes of operands that are only generated as the LAST operation of a script: the real library is known to
 # break there (DESIGN section 5) and nothing can be compared afterwards
-TAIL_ONLY = {'insert-into-self', 'count-huge'}
+TAIL_ONLY = {'own-attribute', 'insert-into-self', 'count-huge', 'illegal-ns-aware-node', 'leaf-firstchild-source', 'after-element-ending-in-text'}
 
 
 class Gen:
@@ -1674,6 +1776,8 @@ class Gen:
             rop = op.resolve(self.m)
         except KeyError:
             return None
+        if not tail and self.m.tail_class(rop) is not None:
+            return None          # known-defect operand classes are generated by tail() only
         try:
             exp = self.m.apply(rop)
         except Undecided as u:
@@ -1681,13 +1785,14 @@ class Gen:
             self.stopped = 'undecided: %s' % u
             return None
         if exp.cls in TAIL_ONLY and not tail:
-            # only legal as the last op (no mutation has happened: these classes are errors / queries)
-            return None
+            self.stopped = 'tail class %s reached unexpectedly' % exp.cls
+            self.ops.append(op)
+            op.kills = sorted(set(exp.kills))
+            return exp
         self.ops.append(op)
         self.nreal += 1
         self.tags.add(name + ':' + exp.cls)
-        if exp.kills:
-            self.ops.append(ScriptOp('kill', None, sorted(set(exp.kills))))
+        op.kills = sorted(set(exp.kills))
         if exp.dontcare or exp.degrade:
             self.stopped = 'implementation-dependent: ' + exp.cls
         return exp
@@ -1979,6 +2084,8 @@ class Gen:
             ns, qn = None, self.l1name(bad=0.12)
         else:
             ns, qn = self.nsname(attr=(n.t == ATTR))
+        if qn is None:
+            qn = ''
         return self.emit('rename', self.newh(), [d.h, n.h, ns, qn])
 
     def g_normalize(self):
@@ -2013,6 +2120,8 @@ class Gen:
                 ns, qn = a.ns, (a.name if r.random() < 0.6 else ('q:' + (a.local or a.name)))
             else:
                 ns, qn = self.nsname(attr=True)
+            if qn is None:
+                qn = ''
             return self.emit(k, None, [el.h, ns, qn, self.data()])
         if k in ('getAttrNS', 'remAttrNS', 'getAttrNodeNS', 'hasAttrNS', 'setIdNS'):
             if el.attrs and r.random() < 0.6:
@@ -2038,6 +2147,8 @@ class Gen:
                 a = self.pick(lambda n: n.t == ATTR)
             if a is None:
                 return None
+            if k == 'setAttrNodeNS' and not a.l2:
+                k = 'setAttrNode'
             return self.emit(k, self.newh(), [el.h, a.h])
         if k == 'remAttrNode':
             a = self.pick(lambda n: n.t == ATTR and (n.owner is el or r.random() < 0.15))
@@ -2084,13 +2195,14 @@ class Gen:
             return None
         k = r.choices(['appendData', 'insertData', 'deleteData', 'replaceData', 'substringData', 'setData', 'getLength'], [5, 6, 6, 5, 5, 3, 1])[0]
         if k == 'appendData':
-            return self.emit(k, None, [n.h, self.data()])
+            return self.emit(k, None, [n.h, self.data() or ''])
         if k == 'insertData':
-            return self.emit(k, None, [n.h, self._offset(n), self.data()])
+            # a null string pointer is not a DOMString: insertData(offset, 0) dereferences it (observation in notes/C13.md)
+            return self.emit(k, None, [n.h, self._offset(n), self.data() or ''])
         if k == 'deleteData':
             return self.emit(k, None, [n.h, self._offset(n), self._count(n)])
         if k == 'replaceData':
-            return self.emit(k, None, [n.h, self._offset(n), self._count(n), self.data()])
+            return self.emit(k, None, [n.h, self._offset(n), self._count(n), self.data() or ''])
         if k == 'substringData':
             c = self._count(n)
             if c >= 4096 and len(n.data) < 4095:
@@ -2177,10 +2289,12 @@ class Gen:
 
     # ---------------------------------------------------------------- tail operations (known-defect classes)
     def tail(self):
+        """one of the operand classes behind which the real library is known to be broken (DESIGN section 5 and notes/C13.md)"""
         r = self.r
         x = r.random()
-        if x < 0.5:
-            e = self.pick(lambda n: n.t in (ELEMENT, FRAG))
+        if x < 0.35:
+            # (a DocumentFragment with children inserted into itself never terminates: pinned special case of the check)
+            e = self.pick(lambda n: n.t == ELEMENT or (n.t == FRAG and not n.kids))
             if e is None:
                 return None
             if r.random() < 0.5 or not e.kids:
@@ -2189,10 +2303,43 @@ class Gen:
             if not k:
                 return self.emit('app', None, [e.h, e.h], tail=True)
             return self.emit('ins', None, [e.h, e.h, r.choice(k).h], tail=True)
-        n = self.pick(lambda n: n.t in (TEXT, CDATA, COMMENT) and len(n.data) < 4000)
+        if x < 0.55:
+            n = self.pick(lambda n: n.t in (TEXT, CDATA, COMMENT) and len(n.data) < 4000)
+            if n is None:
+                return None
+            return self.emit('substringData', None, [n.h, 0, r.choice([4096, 5000, 1 << 20])], tail=True)
+        if x < 0.75:
+            # clone of a leaf node that is a first child, then made a non-first child somewhere
+            n = self.pick(lambda n: n.t in (TEXT, CDATA, COMMENT, PI, ENTREF) and n.parent is not None and n.parent.kids[0] is n)
+            if n is None:
+                return None
+            h = self.newh()
+            e = self.emit('clone', h, [n.h, 1], tail=True)
+            if e is None or self.stopped:
+                return e
+            p = self.pick(lambda q: q.t in (ELEMENT, FRAG) and q.kids and q.docnode() is n.docnode() and not q.ro)
+            if p is None:
+                return e
+            return self.emit('app', None, [p.h, h], tail=True)
+        if x < 0.87:
+            n = self.pick(lambda n: n.t in (TEXT, CDATA) and n.parent is not None and n.parent.t == ELEMENT and self.m._under_docelement(n)
+                          and n.prev() is not None and n.prev().t == ELEMENT and n.prev().kids and n.prev().kids[-1].t in (TEXT, CDATA))
+            if n is None:
+                return None
+            if r.random() < 0.4:
+                return self.emit('wholeText', None, [n.h], tail=True)
+            return self.emit('replaceWholeText', self.newh(), [n.h, r.choice(['Z', 'tail'])], tail=True)
+        if x < 0.93:
+            a = self.pick(lambda n: n.t == ATTR and n.owner is not None and n.owner.h is not None)
+            if a is None:
+                return None
+            return self.emit('setAttrNode', self.newh(), [a.owner.h, a.h], tail=True)
+        d = self.pick_doc()
+        n = self.pick(lambda n: n.t in (ELEMENT, ATTR) and n.l2 and d is n.docnode())
         if n is None:
             return None
-        return self.emit('substringData', None, [n.h, 0, r.choice([4096, 5000, 1 << 20])], tail=True)
+        ns, qn = r.choice([(None, 'p:a'), ('urn:u1', 'xml:a'), ('urn:u1', 'a:b:c'), ('urn:u1', ':a'), ('urn:u1', 'a:'), ('urn:u1', 'p:1a')])
+        return self.emit('rename', self.newh(), [d.h, n.h, ns, qn], tail=True)
 
     # ---------------------------------------------------------------- whole script
     def script(self, tail_prob=0.04):
@@ -2278,8 +2425,7 @@ def exh_script(seq):
         except Undecided as u:
             return None
         out.append(op)
-        if exp.kills:
-            out.append(ScriptOp('kill', None, sorted(set(exp.kills))))
+        op.kills = sorted(set(exp.kills))
         if exp.dontcare:
             stopped = exp.cls
             break
